@@ -8,15 +8,15 @@ PARTIAL = {"C13": "kind model vs the C++ type checker", "C15": "arithmetic UB co
            "C16": "cell-level footprint/commutation theorem; the C++ memory model is not modelled (TSan run as supporting evidence)"}
 
 TEXT = {
- "C01": ("Lean theorems: row-major / Morton (loop and PDEP) / Hilbert index maps are in range of the allocated storage and injective on the box for all N and all extents, array read-own-write and frame; tied to the code by probe-backend and write-all/read-all correspondence in ASan+UBSan and BMI2 builds ALSO by translation: the row-major / portable Morton / Hilbert index kernels are translated from the source text on every run and compared with the terms the theorems Covfie.Imp.*_translated are about (DESIGN.md §11.6)", "§5 C01"),
+ "C01": ("Lean theorems: row-major / Morton (loop and PDEP) / Hilbert index maps are in range of the allocated storage and injective on the box for all N and all extents, array read-own-write and frame; tied to the code by probe-backend and write-all/read-all correspondence in ASan+UBSan and BMI2 builds ALSO by translation: the row-major / portable Morton / Hilbert index kernels are translated from the source text on every run and compared with the terms the theorems Covfie.Imp.*_translated are about (DESIGN.md §11.6) ; Covfie.Code.strided_in_storage_no_alias / morton_no_alias / hilbert_in_storage_no_alias state in-storage and no-alias for the kernels as written", "§5 C01"),
  "C02": ("Lean: evaluator = composition of per-layer maps, locality of every layer for an arbitrary backend, one-line definitions for all N, M; tied to the code by bit-exact comparison of field_view::at on generated stacks (N != M) against the model evaluator", "§5 C02"),
- "C03": ("Lean: each branch of linear.hpp equals the recursive N-linear interpolant (any commutative ring), hull, lattice and corner lemmas, neighbours in box; rounding carried by a forward error bound judged by the Lean driver in exact rationals ALSO by translation: the weighted sums and corner numbering of the 1-D / 2-D / 3-D branches are translated from linear.hpp on every run (Covfie.Lin.*_translated, §11.6)", "§5 C03"),
+ "C03": ("Lean: each branch of linear.hpp equals the recursive N-linear interpolant (any commutative ring), hull, lattice and corner lemmas, neighbours in box; rounding carried by a forward error bound judged by the Lean driver in exact rationals ALSO by translation: the weighted sums and corner numbering of the 1-D / 2-D / 3-D branches are translated from linear.hpp on every run (Covfie.Lin.*_translated, §11.6) ; Covfie.Code.lin_generic_is_nlinear_interpolant states the N-linear interpolant for the generic branch as written", "§5 C03"),
  "C04": ("Lean: round-half-even is within 1/2 and inside the grid on (-1/2, n-1/2); tied to the code by nn<identity> returning the chosen lattice point, ulp-neighbourhoods of every half-integer at both precisions", "§5 C04"),
  "C05": ("Lean: conversion = fold of writes over nd_map at injective indices reads back the source at every lattice coordinate, there-and-back; tied by converting real fields across all ordered layout pairs and whole stacks", "§5 C05"),
- "C06": ("Lean: load (dump f ++ rest) = ok (f, rest) for every stack type and all well-formed data (bit patterns uninterpreted), re-dump identical; tied by byte-exact comparison of field::dump with the model's dump and reload/redump on the real code ALSO by translation: write_binary / read_binary of every layer recognised as a script whose interpretation the model's dumpB / loadB clauses are (Covfie.IO.dump_* / load_*, §11.6)", "§5 C06"),
- "C07": ("Lean: footprint-free layers are transparent (load_cross_interp), narrow/widen rounding lemmas, bracket grammar; tied by cross-type loads on the real code, hardware narrowing comparison and committed golden files", "§5 C07"),
- "C08": ("Lean: every proper prefix, every altered header/footer/width word and every diverging stack type is rejected; width swap 8<->4 proved false in general (witness) => known finding; tied by complete prefix enumeration and word alteration on the real reader under ASan/UBSan ALSO by translation: read_io_header / read_io_footer / write_io_* / read_binary of utility/binary_io.hpp recognised as scripts that accept exactly what the model's pHdr / pFtr accept (§11.6)", "§5 C08"),
- "C09": ("Lean: affApply = A x + t, affMul acts as composition, translation/scaling/identity, any N over any commutative ring; tied by exact small-integer comparison of covfie::algebra operators and affine<identity>, float stream with a forward bound ALSO by translation: matrix product, identity, affine*vector, translation, scaling translated from matrix.hpp / affine.hpp on every run; the translated terms compute the model's matMul / affApply / affTranslation / affScaling, hence A x + t (Covfie.RImp.*_translated, Covfie.Code.affine_apply_is_Ax_plus_t, §11.6)", "§5 C09"),
+ "C06": ("Lean: load (dump f ++ rest) = ok (f, rest) for every stack type and all well-formed data (bit patterns uninterpreted), re-dump identical; tied by byte-exact comparison of field::dump with the model's dump and reload/redump on the real code ALSO by translation: write_binary / read_binary of every layer recognised as a script whose interpretation the model's dumpB / loadB clauses are (Covfie.IO.dump_* / load_*, §11.6) ; the array layer's members (width word from the scalar type, count, component loop) and field::dump / field(std::istream&) likewise (dump_array / load_array, dump_field / load_field), and Covfie.Code.stack_roundtrip states the round trip about the recognised statements of every layer, by induction over the stack", "§5 C06"),
+ "C07": ("Lean: footprint-free layers are transparent (load_cross_interp), narrow/widen rounding lemmas, bracket grammar; tied by cross-type loads on the real code, hardware narrowing comparison and committed golden files ALSO by translation: the array layer's write_binary / read_binary (width word chosen from the scalar type, raw count, the component read at the width the file declares) recognised as the script the model's dumpB / loadB clause for arrays is (Covfie.IO.dump_array / load_array, §11.6)", "§5 C07"),
+ "C08": ("Lean: every proper prefix, every altered header/footer/width word and every diverging stack type is rejected; width swap 8<->4 proved false in general (witness) => known finding; tied by complete prefix enumeration and word alteration on the real reader under ASan/UBSan ALSO by translation: read_io_header / read_io_footer / write_io_* / read_binary of utility/binary_io.hpp recognised as scripts that accept exactly what the model's pHdr / pFtr accept (§11.6) ; Covfie.Code.stack_prefix_rejected states prefix rejection about the recognised statements of every layer's reader", "§5 C08"),
+ "C09": ("Lean: affApply = A x + t, affMul acts as composition, translation/scaling/identity, any N over any commutative ring; tied by exact small-integer comparison of covfie::algebra operators and affine<identity>, float stream with a forward bound ALSO by translation: matrix product, identity, affine*vector, translation, scaling translated from matrix.hpp / affine.hpp on every run; the translated terms compute the model's matMul / affApply / affTranslation / affScaling, hence A x + t (Covfie.RImp.*_translated, Covfie.Code.affine_apply_is_Ax_plus_t, §11.6) ; Covfie.Code.affine_compose_is_function_composition states composition for operator*(affine) as written", "§5 C09"),
  "C10": ("Lean: clamp lands in the box for every non-NaN extended value, identity inside, idempotent, clamp layer queries the clamped coordinate; tied by clamp<identity> and clamp over array/probe under ASan with type extremes and infinities", "§5 C10"),
  "C11": ("Lean: outside the closed box => default with empty trace for any backend; inside => exactly the backend; tied by a counting probe backend at and around every bound", "§5 C11"),
  "C12": ("Lean: the array ownership machine refines the plain value machine over every history (invariant: no aliasing, no leak, no dangling, no double free); tied by interpreting the same histories over std::optional<field> slots under ASan/LSan ALSO by translation: the copy constructor and copy assignment of array::owning_data_t recognised statement by statement as scripts that are the machine's copyCtor / copyAssign steps on every reachable state (Covfie.Heap.copy_*_translated, §11.6)", "§5 C12"),
@@ -24,10 +24,10 @@ TEXT = {
  "C14": ("Lean: row-major closed form; Morton bit i of coordinate j is bit i*N+j in both implementations; the iterative Hilbert loop equals the recursive curve, which is a bijection onto [0,4^k) starting at the origin with edge-adjacent steps, for every k; tied by static index functions and layers over identity ALSO by translation: the three index kernels translated from the source text on every run; Covfie.Code.strided_position / morton_bits / hilbert_curve state the published positions for the code as written (§11.6)", "§5 C14"),
  "C15": ("Lean: on the documented domain none of the modelled arithmetic UB conditions fires for array-backed row-major/Morton stacks; everything else observed: all correspondence programs run under ASan+UBSan(+float-cast-overflow) with assertions and in -O2 -DNDEBUG with digests compared", "§5 C15"),
  "C16": ("Lean: for any number of threads and any schedule, conflict-free programs give every thread its solo results and no conflicting pair exists; tied by probe footprints = model traces, absence of writable statics, and a TSan run", "§5 C16"),
- "C17": ("Lean: configuration read-back at every layer, rebuild_eq, positional pack helper for every depth; tied by get_backend()/get_configuration() chains on generated towers with pairwise distinct same-typed configurations", "§5 C17"),
+ "C17": ("Lean: configuration read-back at every layer, rebuild_eq, positional pack helper for every depth; tied by get_backend()/get_configuration() chains on generated towers with pairwise distinct same-typed configurations ALSO: get_configuration() and the parameter-pack constructor of every layer compared on every run with the text the clauses of Model/Config.lean were written from (function-level sentences, §11.6)", "§5 C17"),
  "C18": ("Lean: round_pow2 is the least power of two >= i on [1,2^(w-1)] for every width, diverges beyond; ipow = b^e mod 2^w; curve storage covers every index; tied by exhaustive 8/16-bit (32-bit thorough) comparison of the real templates ALSO by translation: round_pow2 and ipow translated from numeric.hpp on every run; Covfie.Code.round_pow2_least / round_pow2_diverges / ipow_exact state the property for the code as written, every width, every input (§11.6)", "§5 C18"),
- "C19": ("Lean: nd_map visits exactly the box, each tuple once, count = product, for all dimensionalities and extents incl. 0 and 1; tied by recording the real callback sequence", "§5 C19"),
- "C20": ("Lean: the pivot/filter quicksort yields a sorted permutation, and the permutation predicate holds iff multisets are equal, all lengths; tied by generated TUs printing sort_index_sequence / is_permutation", "§5 C20"),
+ "C19": ("Lean: nd_map visits exactly the box, each tuple once, count = product, for all dimensionalities and extents incl. 0 and 1; tied by recording the real callback sequence ALSO by translation: tail, cat and the three branches of nd_map recognised as equations; any meanings satisfying them give the model's visit sequence (Covfie.Nd.visits_eq / as_written, §11.6)", "§5 C19"),
+ "C20": ("Lean: the pivot/filter quicksort yields a sorted permutation, and the permutation predicate holds iff multisets are equal, all lengths; tied by generated TUs printing sort_index_sequence / is_permutation ALSO by translation: every template specialisation of static_permutation.hpp recognised as an equation on index sequences; any meanings satisfying the equations are the model's sortSeq / isPerm (Covfie.Tmpl.sort_eq / perm_eq / as_written, §11.6)", "§5 C20"),
 }
 NOTE = ("Trusted: Lean 4.33 kernel (axioms per theorem in the evidence: at most propext, Classical.choice, Quot.sound; no sorry, no native_decide, "
         "no own axioms), the Lean compiler for the model drivers, the correspondence harness (Python generators, C++ harness code, line protocol), "
@@ -52,7 +52,7 @@ def main():
                 "engine": "lean4-proof+correspondence",
                 "level_claimed": {"category": "proof", "text": text, "design_ref": ref},
                 "level_note": NOTE,
-                "technique": "Lean 4 theorem over a hand-written executable model + differential correspondence check against /repo" + (" + kernels translated from the source text on every run and compared with the terms the theorems are about" if pid in ("C01", "C03", "C05", "C06", "C08", "C09", "C12", "C14", "C18") else ""),
+                "technique": "Lean 4 theorem over a hand-written executable model + differential correspondence check against /repo" + (" + kernels translated from the source text on every run and compared with the terms the theorems are about" if pid in ("C01", "C03", "C05", "C06", "C07", "C08", "C09", "C12", "C14", "C18", "C19", "C20") else ""),
             })
         else:
             na.append({"property_id": pid, "reason": "check not yet built in this tree (planned: Lean theorem + correspondence, see DESIGN.md §5)"})
